@@ -541,7 +541,10 @@ func scenariosFor(tier string) []vrt.Scenario {
 		}
 		plain(1, true, cfg{kind: "trigger", workers: 2, ticks: q(2, 1), gate: "none", stop: "cancel-q"})
 		plain(1, true, cfg{kind: "trigger", workers: 2, ticks: q(3), gate: "none", stop: "limit", limit: 2})
+		// a tick beyond 32 bits, ended by the limit (which discards what is pending in one step)
+		addDelay(1, cfg{kind: "trigger", workers: 2, ticks: q(1<<32 + 3), gate: "none", stop: "limit", limit: 5})
 	case "C03":
+		addDelay(1, cfg{kind: "trigger", workers: 2, ticks: q(1<<32 + 3), gate: "none", stop: "limit", limit: 5})
 		plain(1, true, cfg{kind: "trigger", workers: 2, limit: 2, ticks: q(3), gate: "none", stop: "limit"})
 		plain(1, true, cfg{kind: "continuous", workers: 2, limit: 2, gate: "none"})
 		// one worker: b=2 (thorough 3); two workers: b=1 (thorough 2); three
